@@ -39,6 +39,14 @@ func (r *rot) Wrapper() wrapping.Wrapper { r.nap(); return r.w }
 func (r *rot) HmacSalt() []byte          { r.nap(); return r.salt }
 func (r *rot) HmacInfo() []byte          { r.nap(); return r.info }
 
+// rotWithID is a rotation payload that also satisfies EventWrapperInfo (it has an event id).
+type rotWithID struct {
+	*rot
+	id string
+}
+
+func (r *rotWithID) EventId() string { return r.id }
+
 func mkMap(c string) TMap {
 	return TMap{"tagged": c + "-tagged", "untagged": c + "-untagged", "n": 42,
 		"nested": map[string]interface{}{"inner": c + "-inner", "other": c + "-other"}}
